@@ -717,9 +717,14 @@ def _overflow(ctx, oa, b, cfg, tr, bi, t):
     sigk = 'Overflow:%s' % binop
     rhs_const1 = co['o'] == 'const' and const_value(co['c']) == 1
     # D5 bounded counter: x += 1; if x > K { leave }
-    if binop == 'Add' and rhs_const1 and ao['o'] == 'local':
+    # a bool counted as 0 / 1 (`count + u64::from(rejected)`, `rejected as u64`) is a step of at most one
+    rhs_bool = (co['o'] == 'call' and call_matches(co['term'], 'From<bool>>::from', 'From<bool>::from') or
+                (co['o'] == 'call' and call_matches(co['term'], 'From>::from', 'From::from', 'Into>::into', 'Into::into') and
+                 co['term']['args'] and co['term']['args'][0].get('ty') == 'bool') or
+                (co['o'] == 'rvalue' and co['rv'].get('r') == 'cast' and co['rv']['a'].get('ty') == 'bool'))
+    if binop == 'Add' and (rhs_const1 or rhs_bool) and ao['o'] == 'local':
         x = ao['l']
-        bc = _bounded_counter(b, cfg, tr, x, t['target'], bi)
+        bc = _bounded_counter(b, cfg, tr, x, t['target'], bi) if rhs_const1 else None
         if bc:
             return 'discharged', 'bounded-counter', bc
         cc = _loop_counter(oa, b, cfg, tr, x, bi)
